@@ -134,9 +134,26 @@ func isIdent(e ast.Expr, name string) bool {
 func callsRemove(n ast.Node, funcs map[string]*ast.FuncDecl, depth int) bool {
 	found := false
 	ast.Inspect(n, func(x ast.Node) bool {
+		if found {
+			return false
+		}
+		// `name := func() .. { .. }` only DEFINES a local closure: its body
+		// runs where `name()` is called
+		if as, ok := x.(*ast.AssignStmt); ok && localDef(as) != "" {
+			return false
+		}
 		c, ok := x.(*ast.CallExpr)
-		if !ok || found {
-			return !found
+		if !ok {
+			return true
+		}
+		if id, ok := c.Fun.(*ast.Ident); ok {
+			if fl, ok := localFuncs[id.Name]; ok {
+				if depth > 0 && callsRemove(fl.Body, funcs, depth-1) {
+					found = true
+					return false
+				}
+				return true
+			}
 		}
 		name := selName(c)
 		if name == "RemoveUnminedTx" {
@@ -157,6 +174,52 @@ func callsRemove(n ast.Node, funcs map[string]*ast.FuncDecl, depth int) bool {
 		return true
 	})
 	return found
+}
+
+// localFuncs: closures defined by `name := func(..) .. {..}` at the top level
+// of the function under analysis (set by collectLocalFuncs).
+var localFuncs = map[string]*ast.FuncLit{}
+
+// localDef returns the name when the statement is `name := func(..) {..}`.
+func localDef(as *ast.AssignStmt) string {
+	if len(as.Lhs) != 1 || len(as.Rhs) != 1 {
+		return ""
+	}
+	id, ok := as.Lhs[0].(*ast.Ident)
+	if !ok {
+		return ""
+	}
+	if _, ok := as.Rhs[0].(*ast.FuncLit); !ok {
+		return ""
+	}
+	return id.Name
+}
+
+func collectLocalFuncs(fd *ast.FuncDecl) {
+	localFuncs = map[string]*ast.FuncLit{}
+	for _, st := range fd.Body.List {
+		if as, ok := st.(*ast.AssignStmt); ok {
+			if n := localDef(as); n != "" {
+				if _, dup := localFuncs[n]; dup || as.Tok != token.DEFINE {
+					fail("%s: local closure %s assigned more than once", pos(as), n)
+				}
+				localFuncs[n] = as.Rhs[0].(*ast.FuncLit)
+			}
+		}
+	}
+	// a closure that is reassigned anywhere else is not understood
+	ast.Inspect(fd.Body, func(x ast.Node) bool {
+		if as, ok := x.(*ast.AssignStmt); ok && as.Tok != token.DEFINE {
+			for _, l := range as.Lhs {
+				if id, ok := l.(*ast.Ident); ok {
+					if _, isLocal := localFuncs[id.Name]; isLocal {
+						fail("%s: local closure %s is reassigned", pos(as), id.Name)
+					}
+				}
+			}
+		}
+		return true
+	})
 }
 
 // lastReturn returns the last statement of a block when it is a return.
@@ -227,6 +290,7 @@ func notifyIf(stmts []ast.Stmt) (int, *ast.IfStmt) {
 }
 
 func analyseReliably(fd *ast.FuncDecl, funcs map[string]*ast.FuncDecl, res *result) {
+	collectLocalFuncs(fd)
 	stmts := fd.Body.List
 	ni, nif := notifyIf(stmts)
 	if nif == nil {
@@ -310,6 +374,7 @@ func errorsIsTarget(e ast.Expr) string {
 }
 
 func analysePublish(fd *ast.FuncDecl, funcs map[string]*ast.FuncDecl, res *result) {
+	collectLocalFuncs(fd)
 	stmts := fd.Body.List
 	res.Classes = map[string]action{}
 	// locate `_, rpcErr := chainClient.SendRawTransaction(tx, false)`
@@ -350,88 +415,162 @@ func analysePublish(fd *ast.FuncDecl, funcs map[string]*ast.FuncDecl, res *resul
 	}
 	res.Classes["accepted"] = action{callsRemove(is.Body, funcs, 2), returnsError(r), pos(is)}
 	rest = rest[1:]
-	// optional tagless switch over errors.Is(rpcErr, chain.X)
+	// the answer classification: tagless switches over errors.Is(rpcErr,
+	// chain.X) and/or if / else-if chains over (disjunctions of) the same
+	// tests; everything after the last of them is the rejection path (unless
+	// a chain ends in a plain else block, which then is the rejection path)
 	named := []string{"ErrTxAlreadyInMempool", "ErrTxAlreadyKnown", "ErrTxAlreadyConfirmed"}
+	key := map[string]string{"ErrTxAlreadyInMempool": "in_mempool", "ErrTxAlreadyKnown": "already_known",
+		"ErrTxAlreadyConfirmed": "already_confirmed"}
 	handled := map[string]bool{}
-	var tail []ast.Stmt
-	for i, s := range rest {
-		sw, ok := s.(*ast.SwitchStmt)
-		if !ok {
+	branch := func(where ast.Node, body []ast.Stmt, targets []string) {
+		r := lastReturn(body)
+		if r == nil || !noEarlyExit(body, r) {
+			fail("%s: classification branch does not end in a single return", pos(where))
+		}
+		act := action{false, returnsError(r), pos(where)}
+		for _, b := range body {
+			if callsRemove(b, funcs, 2) {
+				act.Removes = true
+			}
+		}
+		for _, t := range targets {
+			if handled[t] {
+				continue // an earlier branch wins
+			}
+			k, ok := key[t]
+			if !ok {
+				fail("%s: answer class chain.%s is not part of the model", pos(where), t)
+			}
+			handled[t] = true
+			res.Classes[k] = act
+		}
+	}
+	isCls := func(st ast.Stmt) bool {
+		switch t := st.(type) {
+		case *ast.SwitchStmt:
+			return t.Tag == nil && t.Init == nil
+		case *ast.IfStmt:
+			return t.Init == nil && condTargets(t.Cond) != nil
+		}
+		return false
+	}
+	last := -1
+	for i, st := range rest {
+		if isCls(st) {
+			last = i
+		}
+	}
+	var other *action
+	for i := 0; i <= last; i++ {
+		st := rest[i]
+		if !isCls(st) {
+			if callsRemove(st, funcs, 2) {
+				fail("%s: removal outside a classification branch", pos(st))
+			}
+			if _, isRet := st.(*ast.ReturnStmt); isRet || !noEarlyExit([]ast.Stmt{st}, nil) {
+				fail("%s: return outside a classification branch", pos(st))
+			}
 			continue
 		}
-		if sw.Tag != nil || sw.Init != nil {
-			fail("%s: switch shape not recognised", pos(sw))
+		if other != nil {
+			fail("%s: classification after a closing else", pos(st))
 		}
-		for _, pre := range rest[:i] {
-			if callsRemove(pre, funcs, 2) {
-				fail("%s: removal before the answer classification", pos(pre))
-			}
-			if _, isRet := pre.(*ast.ReturnStmt); isRet {
-				fail("%s: return before the answer classification", pos(pre))
-			}
-		}
-		for _, cc := range sw.Body.List {
-			cl := cc.(*ast.CaseClause)
-			if cl.List == nil {
-				fail("%s: default clause in the answer classification not recognised", pos(cl))
-			}
-			r := lastReturn(cl.Body)
-			if r == nil || !noEarlyExit(cl.Body, r) {
-				fail("%s: case clause does not end in a single return", pos(cl))
-			}
-			act := action{false, returnsError(r), pos(cl)}
-			for _, b := range cl.Body {
-				if callsRemove(b, funcs, 2) {
-					act.Removes = true
+		switch t := st.(type) {
+		case *ast.SwitchStmt:
+			for _, cc := range t.Body.List {
+				cl := cc.(*ast.CaseClause)
+				if cl.List == nil {
+					fail("%s: default clause in the answer classification not recognised", pos(cl))
 				}
+				var targets []string
+				for _, e := range cl.List {
+					ts := condTargets(e)
+					if ts == nil {
+						fail("%s: case expression is not errors.Is(rpcErr, chain.X)", pos(e))
+					}
+					targets = append(targets, ts...)
+				}
+				branch(cl, cl.Body, targets)
 			}
-			for _, e := range cl.List {
-				t := errorsIsTarget(e)
-				if t == "" {
-					fail("%s: case expression is not errors.Is(rpcErr, chain.X)", pos(e))
+		case *ast.IfStmt:
+			for cur := t; cur != nil; {
+				if cur.Init != nil {
+					fail("%s: if with an init statement in the answer classification", pos(cur))
 				}
-				if handled[t] {
-					continue // an earlier clause wins
+				ts := condTargets(cur.Cond)
+				if ts == nil {
+					fail("%s: condition is not a disjunction of errors.Is(rpcErr, chain.X)", pos(cur))
 				}
-				handled[t] = true
-				switch t {
-				case "ErrTxAlreadyInMempool":
-					res.Classes["in_mempool"] = act
-				case "ErrTxAlreadyKnown":
-					res.Classes["already_known"] = act
-				case "ErrTxAlreadyConfirmed":
-					res.Classes["already_confirmed"] = act
+				branch(cur, cur.Body.List, ts)
+				switch el := cur.Else.(type) {
+				case nil:
+					cur = nil
+				case *ast.IfStmt:
+					cur = el
+				case *ast.BlockStmt:
+					r := lastReturn(el.List)
+					if r == nil || !noEarlyExit(el.List, r) {
+						fail("%s: closing else does not end in a single return", pos(el))
+					}
+					o := action{false, returnsError(r), pos(el)}
+					for _, b := range el.List {
+						if callsRemove(b, funcs, 2) {
+							o.Removes = true
+						}
+					}
+					other = &o
+					cur = nil
 				default:
-					fail("%s: answer class chain.%s is not part of the model", pos(e), t)
+					fail("%s: else shape not recognised", pos(cur))
 				}
 			}
 		}
-		tail = rest[i+1:]
-		break
 	}
-	if tail == nil {
-		tail = rest
-	}
-	r = lastReturn(tail)
-	if r == nil || !noEarlyExit(tail, r) {
-		fail("%s: rejection path of publishTransaction does not end in a single return", pos(fd))
-	}
-	other := action{false, returnsError(r), pos(r)}
-	for _, s := range tail {
-		if callsRemove(s, funcs, 2) {
-			other.Removes = true
+	tail := rest[last+1:]
+	if other == nil {
+		r = lastReturn(tail)
+		if r == nil || !noEarlyExit(tail, r) {
+			fail("%s: rejection path of publishTransaction does not end in a single return", pos(fd))
 		}
+		o := action{false, returnsError(r), pos(r)}
+		for _, st := range tail {
+			if callsRemove(st, funcs, 2) {
+				o.Removes = true
+			}
+		}
+		other = &o
 	}
-	res.Classes["other"] = other
+	res.Classes["other"] = *other
 	for _, n := range named {
 		if !handled[n] {
-			key := map[string]string{"ErrTxAlreadyInMempool": "in_mempool", "ErrTxAlreadyKnown": "already_known",
-				"ErrTxAlreadyConfirmed": "already_confirmed"}[n]
-			o := other
+			o := *other
 			o.Where = other.Where + " (no case for chain." + n + ")"
-			res.Classes[key] = o
+			res.Classes[key[n]] = o
 		}
 	}
+}
+
+// condTargets: errors.Is(rpcErr, chain.X) [|| errors.Is(rpcErr, chain.Y) ..]
+// -> [X, Y, ..]; nil when the expression has another shape.
+func condTargets(e ast.Expr) []string {
+	switch t := e.(type) {
+	case *ast.ParenExpr:
+		return condTargets(t.X)
+	case *ast.BinaryExpr:
+		if t.Op != token.LOR {
+			return nil
+		}
+		l, r := condTargets(t.X), condTargets(t.Y)
+		if l == nil || r == nil {
+			return nil
+		}
+		return append(l, r...)
+	}
+	if x := errorsIsTarget(e); x != "" {
+		return []string{x}
+	}
+	return nil
 }
 
 func analyseResend(fd *ast.FuncDecl, unmined *ast.FuncDecl, res *result) {
